@@ -6,7 +6,7 @@ import common
 
 PROPS = "RotoV.Props.C08"              # T1 order_spec, T2 lowerS_trace_partial, T3 dce_preserves_trace
 PROPS_SOURCE = "RotoV.Props.C08Source"  # regenerated step skeletons of the Lowerer functions, pinned
-EXTRA = ["RotoV.Model.TraceSpec", "RotoV.Lemmas.TraceSpec", "RotoV.Lemmas.TraceSpecMono", "RotoV.Model.LowerS", "RotoV.Lemmas.LowerS", "RotoV.Lemmas.LowerSim",
+EXTRA = ["RotoV.Model.TraceSpec", "RotoV.Lemmas.TraceSpec", "RotoV.Lemmas.TraceSpecMono", "RotoV.Model.LowerS", "RotoV.Lemmas.LowerS", "RotoV.Lemmas.LowerSim", "RotoV.Lemmas.LowerTotal",
          "RotoV.Lemmas.Dce", "RotoV.Model.Dce", "RotoV.Props.C01Dce"]
 
 
